@@ -38,11 +38,17 @@ pub struct AnalyzeIter<'a> {
 
 impl<'a> AnalyzeIter<'a> {
     pub(crate) fn new(pattern: &'a [char], matcher: ReMatcher<'a>) -> Self {
+        // with the 'q' flag the pattern is a literal string without groups
+        let nesting_table = if matcher.program.flags.is_literal() {
+            HashMap::new()
+        } else {
+            Self::compute_nesting_table(pattern)
+        };
         AnalyzeIter {
             matcher,
             next_substring: None,
             prev_end: Some(0),
-            nesting_table: Self::compute_nesting_table(pattern),
+            nesting_table,
             skip: false,
         }
     }
